@@ -59,10 +59,10 @@ def _apply_rewrites(text, rewrites, what, log):
             found = len(re.findall(old, text))
         else:
             found = text.count(old)
-        if found != count:
+        if (count is None and found < 1) or (count is not None and found != count):
             raise LostAnchor("%s: rewrite anchor %r found %d times, expected %d" % (what, old[:60], found, count))
         text = re.sub(old, new, text) if is_re else text.replace(old, new)
-        log.append("%s: %r -> %r (x%d)" % (what, old[:70], new[:70], count))
+        log.append("%s: %r -> %r (x%d)" % (what, old[:70], new[:70], found))
     return text
 
 
@@ -93,6 +93,39 @@ def _loop_body_open(mask, kw_pos):
             return k
         k += 1
     raise LostAnchor("loop without body")
+
+
+def _ghost_only(text):
+    """A hint may contain only `proof { .. }` blocks, `let ghost ..;` bindings and comments."""
+    m = mask_source(text)
+    i, n = 0, len(m)
+    while i < n:
+        if m[i].isspace():
+            i += 1
+            continue
+        if m.startswith("proof", i):
+            j = m.find("{", i)
+            if j < 0 or m[i + 5:j].strip():
+                return False
+            i = match_close(m, j) + 1
+            continue
+        if m.startswith("let ghost ", i):
+            depth = 0
+            j = i
+            while j < n:
+                if m[j] in "([{":
+                    depth += 1
+                elif m[j] in ")]}":
+                    depth -= 1
+                elif m[j] == ";" and depth == 0:
+                    break
+                j += 1
+            if j >= n:
+                return False
+            i = j + 1
+            continue
+        return False
+    return True
 
 
 def build_fn(item, spec, canary, log):
@@ -138,6 +171,8 @@ def build_fn(item, spec, canary, log):
     # hints (ghost code) inside the body
     for h in spec.get("hints", []):
         where, anchor, proof = h
+        if not _ghost_only(proof):
+            raise ValueError("%s: hint is not ghost-only code: %r" % (fn_id, proof[:80]))
         if where == "body_start":
             body = "{\n" + proof + "\n" + body[1:]
             continue
